@@ -20,10 +20,21 @@ Which inverses must follow a REPLACED parameter tensor (data_(), offset_(), angl
 A functional setter returns a copy "with the specified parameters / grid": neither the receiver nor its inverse partner
 may change (values compared with those of the previous evaluation), and the pair must still round-trip.
 
+Precision: parameters and points are generated in float32 AND float64 (parameters handed over as float64 tensors to the
+constructor / the public setters / data_ / returned by the callable - as_float_tensor keeps a floating dtype -, or created
+with the default dtype and converted with Module.double(); optionally another dtype for one member of a composite, for the
+points, or for a tensor that replaces the parameters later). "To floating-point accuracy" is read as the accuracy of the
+coarsest dtype that enters the computation: eps = max(eps(parameter dtypes of the members), eps(points dtype)); the grid
+(float32 attributes) does not enter a cube-space round trip of a linear model. For linear pairs the matrix representations
+(matrix() / tensor()) of the pair and of each member must in addition compose to the identity to the accuracy of the
+PARAMETER dtype alone (no points involved), and results have the dtype of the points (homogeneous_transform docstring).
+
 Bounds (derived, not fitted):
-* linear models and composites of linear:  64 eps32 * prod_i cond2(H_i) * max(1, |x|), H_i the float64 numpy
-  reference matrix of member i (homogeneous (D+1)x(D+1)); the product of the member condition numbers is what
-  bounds the rounding of the float32 matrix products M and M^-1 that deepali forms independently.
+* linear models and composites of linear:  eps * prod_i cond2(H_i) * (64 + (D+1) sum_j cond2(H_j)) * max(1, |x|), H_i the
+  float64 numpy reference matrix of member i (homogeneous (D+1)x(D+1)), j over the members inverted numerically
+  (torch.inverse: HomogeneousTransform, Shearing); the product of the member condition numbers is what bounds the rounding
+  of the matrix products M and M^-1 that deepali forms independently, the second-order term is the residual bound of
+  an LU-based inverse on its "other" side (see `World.linear_factor`).
 * velocity models on smooth band-limited velocities (sum of components of amplitude a_i samples, curvature
   a_i kappa_i):  at grid points the bound of props/c11.run_smooth,  3 A C + floor  (A = sum a_i, C = sum a_i kappa_i,
   i.e. 3 a^2 kappa for one component); at arbitrary points the transform is the multilinear interpolant of the
@@ -41,8 +52,8 @@ from hypothesis import strategies as st
 
 from props.c11 import cube_axis, smooth_velocity
 from vlib import gen, ref
-from vlib.case import make_grid
-from vlib.core import EPS32, Facet, Violation
+from vlib.case import make_grid, tdtype
+from vlib.core import Facet, Violation, eps_of
 
 PROPERTY = "C07"
 MANIFEST = {
@@ -50,19 +61,23 @@ MANIFEST = {
             "invertible transform classes (Translation, EulerRotation with order, QuaternionRotation, Iso/AnisotropicScaling, "
             "Shearing, HomogeneousTransform, Rigid/RigidQuaternion/Similarity/Affine/FullAffine, SequentialTransform, "
             "GenericSpatialTransform, SVF, SVFFD and composites of linear members with one velocity member), parameters held "
-            "as Parameter / fixed tensor / callable, oriented grids, both align_corners where allowed. Operations: "
+            "as Parameter / fixed tensor / callable, in float32 and float64 (float64 tensors handed to constructor / setters / data_ / "
+            "callable, or Module.double(); mixed dtypes between members, between parameters and points, and across a parameter "
+            "replacement), groups 1 and 2, oriented grids, both align_corners where allowed. Operations: "
             "inverse(link, update_buffers), .inv, in-place edits, replacement through public setters / data_ (on the forward "
             "member or through an unlinked inverse sharing its parameter container), functional setters data(p) / unlink() / "
             "grid(g) / matrix(m) on either side of a pair, inverse of inverse, composition. After every operation all live "
             "(forward, inverse) pairs are called as modules and inv(t(x)) = x, t(inv(x)) = x, inverse(inverse(t)) = t are "
-            "asserted with derived bounds; replaced parameters are followed by linked inverses (all parameter kinds) and by "
+            "asserted with derived bounds in the unit roundoff of the coarsest dtype involved (eps64 when parameters and points are "
+            "float64); for linear pairs the matrices (matrix()/tensor()) of the pair and of every member also compose to the "
+            "identity to the accuracy of the parameter dtype, and results keep the dtype of the points; replaced parameters are followed by linked inverses (all parameter kinds) and by "
             "unlinked inverses of Parameter-held transforms (shared parameter container); a functional setter leaves both "
             "members of a pair unchanged; classes without inverse must raise NotImplementedError. Exploration: no absence "
             "proof; sign / order / stale-parameter errors are 2-5 orders of magnitude above the bounds at the generated "
             "parameter magnitudes.",
     "note": "Trusted: numpy reference matrices of the elementary linear models (only used for the condition number in the "
             "tolerance), the parameter activations of optimisable parameters as implemented by the public setters, the "
-            "second-order bound derived in props/c11.py for smooth velocity fields. CPU, float32 parameters. Replaced "
+            "second-order bound derived in props/c11.py for smooth velocity fields. CPU, float32 and float64. Replaced "
             "fixed-tensor (buffer) parameters are only asserted through linked inverses (buffer containers are documented as "
             "not shared by shallow copies); replaced Parameter-held parameters also through unlinked inverses, as promised by "
             "the docstrings of SpatialTransform.__copy__ and inverse().",
@@ -70,7 +85,16 @@ MANIFEST = {
 }
 ASSUMPTIONS = [
     "linear members are generated well conditioned (scales in [0.2, 5], shear angles <= 1.2 rad, homogeneous matrices "
-    "rotation * (I + E) with |E|_inf <= 0.5); operations that would leave this range are skipped and counted",
+    "rotation * (I + E) [* diag(s), s_i in [0.1, 4], optional: condition numbers up to a few hundred] with |E|_inf <= 0.5); "
+    "operations that would push the product of the condition numbers beyond 2000 are skipped and counted",
+    "a parameter tensor keeps the dtype in which it is handed over (constructor / data_ register the tensor as is, the setters' "
+    "as_float_tensor only converts non-floating tensors, update() buffers what the callable returns): 'floating-point "
+    "accuracy' of a pair is the unit roundoff of the coarsest dtype among the tensors handed over for its members and the points",
+    "float64: SVFFD parameters in float64 are only generated together with Module.double() (the B-spline kernels are module "
+    "buffers of the default dtype; handing a float64 tensor to an unconverted SVFFD raises a dtype RuntimeError in "
+    "evaluate_cubic_bspline - torch module convention, not asserted either way); the dtype of a velocity model's result for "
+    "points of another dtype is not asserted (promotion by torch), only that of linear models (homogeneous_transform docstring); "
+    "velocity models keep the interpolation-derived bound in float64 (it does not depend on the dtype)",
     "velocity fields are sums of band-limited sine products vanishing at the domain boundary, total amplitude <= 2 samples, "
     "wave numbers <= 2, sizes 12..32 (2-D) / 12..16 (3-D); bound 3 A C + floor at grid points (props/c11.py), "
     "+ C/2 at arbitrary points (first-order linear-interpolation term of the point evaluation itself)",
@@ -83,7 +107,7 @@ ASSUMPTIONS = [
     "otherwise n+1 samples and optionally the other align_corners), matrix(m) for the models implementing matrix_ "
     "(Homogeneous, Quaternion, Euler with orders ZXZ/XZX in 3-D) whose parameters are not provided by a callable or link "
     "(documented ReadOnlyParameters); the copies returned by data / matrix are evaluated once, then dropped; receiver and "
-    "partner must return the values of the previous evaluation (same parameters, same code path: 4 eps32)",
+    "partner must return the values of the previous evaluation (same parameters, same code path: 4 eps)",
     "inverses are evaluated in creation order after the forward transform (a linked inverse reads the buffered "
     "parameters of the transform it is linked to)",
 ]
@@ -130,17 +154,23 @@ def nvals(cls: str, D: int) -> int:
 
 
 def hom_from_desc(D: int, flat) -> np.ndarray:
-    """Well-conditioned homogeneous matrix from the descriptor [E (D*D), rot (1|3), t (D)]:  Rot * (I + E) | t.
-    Rows of E are scaled so that |E|_inf <= 0.5, hence cond_inf(I + E) <= 3 by construction."""
+    """Homogeneous matrix from the descriptor [E (D*D), rot (1|3), t (D), optional stretch s (D)]:
+    Rot * (I + E) * diag(s) | t.  Rows of E are scaled so that |E|_inf <= 0.5, hence cond_inf(I + E) <= 3 by
+    construction; the optional stretch factors s_i in [0.1, 4] give non-trivial but harmless condition numbers
+    (up to a few hundred) - the condition number that enters the tolerance is always computed from the matrix."""
     flat = [float(v) for v in flat]
     E = np.array(flat[: D * D]).reshape(D, D)
     nrot = 1 if D == 2 else 3
     rot = flat[D * D: D * D + nrot]
     t = np.array(flat[D * D + nrot: D * D + nrot + D])
+    s = np.array(flat[D * D + nrot + D: D * D + nrot + 2 * D])
     rs = np.abs(E).sum(1)
     E = E * (0.5 / np.maximum(rs, 0.5))[:, None]
     R = ref.rot2(rot[0]) if D == 2 else ref.euler_matrix(rot, "zyx")
-    return np.concatenate([R @ (np.eye(D) + E), t[:, None]], axis=1)
+    A = R @ (np.eye(D) + E)
+    if s.size == D:
+        A = A @ np.diag(s)
+    return np.concatenate([A, t[:, None]], axis=1)
 
 
 def eff_of_raw(cls: str, raw: np.ndarray, act: bool) -> np.ndarray:
@@ -245,15 +275,15 @@ def velocity_kappa(D: int, shape, waves) -> float:
     return D * (math.pi * max(waves) / (min(shape) - 1)) ** 2
 
 
-def svf_tensor(D, shape, ac, comps) -> torch.Tensor:
+def svf_tensor(D, shape, ac, comps, dtype="float32") -> torch.Tensor:
     out = None
     for c in comps:
-        v = smooth_velocity({"D": D, "shape": list(shape), "ac": ac, "waves": c["waves"], "dtype": "float32"}, c["amp"])
+        v = smooth_velocity({"D": D, "shape": list(shape), "ac": ac, "waves": c["waves"], "dtype": dtype}, c["amp"])
         out = v if out is None else out + v
     return out
 
 
-def svffd_tensor(D, shape, stride, cp_shape, comps) -> torch.Tensor:
+def svffd_tensor(D, shape, stride, cp_shape, comps, dtype="float32") -> torch.Tensor:
     """Control point coefficients (1, D, *cp_shape): control point k of an axis sits at sample (k - 1) * stride
     (cubic_bspline_control_point_grid: origin = index -stride); coefficient = amp * sin-product of that position, so
     the spline has amplitude <= amp, curvature <= amp (pi w/(n-1))^2 per axis and vanishes on the domain boundary."""
@@ -271,7 +301,7 @@ def svffd_tensor(D, shape, stride, cp_shape, comps) -> torch.Tensor:
                 sh[ax] = cp_shape[ax]
                 f = f * np.sin(np.pi * w * pos / (n - 1)).reshape(sh)
             out[0, comp] += f
-    return torch.tensor(out, dtype=torch.float32)
+    return torch.tensor(out, dtype=tdtype(dtype))
 
 
 # ---------------------------------------------------------------------------------------
@@ -301,10 +331,11 @@ class ModuleSource(torch.nn.Module):
 class Leaf:
     """One parametric member: the real deepali transform + float64 bookkeeping of its parameters."""
 
-    def __init__(self, spec, kind, act):
+    def __init__(self, spec, kind, act, dtype="float32"):
         self.spec = spec
         self.cls = spec["cls"]
         self.kind = kind  # param | buffer | callable
+        self.dtype = spec.get("dtype") or dtype  # dtype of the parameter tensor ("float32" | "float64")
         self.act = act  # activation applies (parameters are an optimisable Parameter)
         self.real = None
         self.holder = None  # dict with key "p" for callables
@@ -333,6 +364,9 @@ class World:
         self.shape = tuple(int(n) for n in init["grid"]["size"][::-1])  # tensor order (..., X)
         self.ac = bool(init["grid"]["ac"])
         self.kind = init["kind"]
+        self.pdtype = init.get("dtype", "float32")  # dtype of the parameters (a leaf may override it: spec["dtype"])
+        self.xdtype = init.get("xdtype", "float32")  # dtype of the points
+        self.route = init.get("route", "setter")  # "double": created with the default dtype, converted by Module.double()
         self.units = [2.0 / (n - 1) if self.ac else 2.0 / n for n in init["grid"]["size"]]  # component order x, y, z
         self.leaves = []
         self.pairs = []
@@ -341,7 +375,7 @@ class World:
         self.worst = 0.0
         self.labels = set()
         self.flags = {"changed": False, "linked": False, "skipped_ops": 0, "performed": 0, "replaced_unlinked": False,
-                      "func": False}
+                      "func": False, "matrix": False}
         self.expect_same = None  # set by a functional setter: the next check compares with the previous values
         pts = [list(p) for p in init["pts"]]
         self.grid_pts = 0
@@ -349,7 +383,7 @@ class World:
             pts.append([float(cube_axis(self.shape[D - 1 - c], self.ac)[int(round(u * (self.shape[D - 1 - c] - 1)))])
                         for c, u in enumerate(idx)])
             self.grid_pts += 1
-        self.x = torch.tensor(pts, dtype=torch.float32).reshape(1, len(pts), D).repeat(self.N, 1, 1)
+        self.x = torch.tensor(pts, dtype=tdtype(self.xdtype)).reshape(1, len(pts), D).repeat(self.N, 1, 1)
         self.t = self.build(init["model"])
         self.t(self.x)  # the forward transform is evaluated once, as in any use of it
 
@@ -369,14 +403,27 @@ class World:
         """The callable handed to deepali as `params`: a plain function or a torch module."""
         return ModuleSource(fn) if self.init.get("module") else fn
 
-    def to_tensor(self, arr) -> torch.Tensor:
-        return torch.tensor(np.asarray(arr), dtype=torch.float32)
+    def to_tensor(self, arr, dtype=None) -> torch.Tensor:
+        return torch.tensor(np.asarray(arr), dtype=tdtype(dtype or self.pdtype))
+
+    def leaf_of(self, spec, kind, act) -> "Leaf":
+        return Leaf(spec, kind, act, dtype=self.pdtype)
+
+    def fill(self, leaf: "Leaf", eff: np.ndarray):
+        """route "double": the transform was created with zero-initialised default (float32) parameters and converted
+        with Module.double(); the float64 values are written into the converted tensor in place."""
+        if leaf.cls == "QuaternionRotation" and leaf.kind == "param":
+            eff = eff / np.linalg.norm(eff, axis=-1, keepdims=True)
+        raw = raw_of_eff(leaf.cls, eff, leaf.act)
+        with torch.no_grad():
+            leaf.real.params.copy_(self.to_tensor(raw, leaf.dtype))
+        leaf.raw = raw
 
     def set_linear(self, leaf: Leaf, eff: np.ndarray, obj=None):
         """Replace the parameters of a linear leaf through its public setter (called on `obj`, a transform which
         shares the parameters of the leaf, when given)."""
         t, cls = (leaf.real if obj is None else obj), leaf.cls
-        arg = self.to_tensor(eff)
+        arg = self.to_tensor(eff, leaf.dtype)
         if leaf.kind == "callable":
             leaf.holder[leaf.key] = arg
         elif cls == "Translation":
@@ -396,21 +443,30 @@ class World:
         """Stand-alone elementary linear transform (or bookkeeping of a member of a named composite)."""
         kind = self.kind if kind is None else kind
         cls = spec["cls"]
-        leaf = Leaf(spec, kind, act=(kind == "param"))
+        leaf = self.leaf_of(spec, kind, act=(kind == "param"))
         eff = self.eff_values(cls, spec["val"])
         if member is not None:
             leaf.real = member
             return leaf, eff
         kw = {"order": spec.get("order")} if cls == "EulerRotation" else {}
         C = getattr(self.S, cls)
+        double = self.route == "double" and leaf.dtype == "float64"
         if kind == "param":
             leaf.real = C(self.grid, groups=self.N, **kw)
-            self.set_linear(leaf, eff)
+            if double:
+                leaf.real = leaf.real.double()
+                self.fill(leaf, eff)
+            else:
+                self.set_linear(leaf, eff)
         elif kind == "buffer":
-            leaf.real = C(self.grid, params=self.to_tensor(eff), **kw)
-            leaf.raw = eff
+            if double:
+                leaf.real = C(self.grid, groups=self.N, params=False, **kw).double()
+                self.fill(leaf, eff)
+            else:
+                leaf.real = C(self.grid, params=self.to_tensor(eff, leaf.dtype), **kw)
+                leaf.raw = eff
         else:
-            leaf.holder = {"p": self.to_tensor(eff)}
+            leaf.holder = {"p": self.to_tensor(eff, leaf.dtype)}
             holder = leaf.holder
             leaf.real = C(self.grid, groups=self.N, params=self.source(lambda: holder["p"]), **kw)
             leaf.raw = eff
@@ -418,7 +474,7 @@ class World:
 
     def new_velocity(self, spec, kind=None, member=None, holder=None, key="p") -> Leaf:
         kind = self.kind if kind is None else kind
-        leaf = Leaf(spec, kind, act=False)
+        leaf = self.leaf_of(spec, kind, act=False)
         leaf.comps = [dict(c) for c in spec["comps"]]
         S = self.S
         if member is None:
@@ -426,11 +482,19 @@ class World:
             C = S.StationaryVelocityFieldTransform if spec["cls"] == "SVF" else S.StationaryVelocityFreeFormDeformation
             if spec["cls"] == "SVFFD":
                 kw["stride"] = int(spec["stride"])
+            # float64 SVFFD: the B-spline kernels are (float32) module buffers, the module is converted with double()
+            double = leaf.dtype == "float64" and (self.route == "double" or spec["cls"] == "SVFFD")
             if kind == "callable":
                 leaf.holder = {"p": None}
                 h = leaf.holder
                 leaf.real = C(self.grid, groups=1, params=self.source(lambda: h["p"]), **kw)
+                if double and spec["cls"] == "SVFFD":
+                    leaf.real = leaf.real.double()
                 h["p"] = self.velocity_tensor(leaf)
+            elif double:
+                leaf.real = C(self.grid, groups=1, params=(kind == "param"), **kw).double()
+                with torch.no_grad():
+                    leaf.real.params.copy_(self.velocity_tensor(leaf))
             elif kind == "buffer":
                 leaf.real = C(self.grid, groups=1, params=False, **kw)  # only to read data_shape (SVFFD control points)
                 leaf.real = C(self.grid, params=self.velocity_tensor(leaf), **kw)
@@ -443,16 +507,17 @@ class World:
             leaf.key = key
         return leaf
 
-    def velocity_tensor(self, leaf: Leaf, comps=None) -> torch.Tensor:
+    def velocity_tensor(self, leaf: Leaf, comps=None, dtype=None) -> torch.Tensor:
         comps = leaf.comps if comps is None else comps
+        dtype = dtype or leaf.dtype
         if leaf.cls == "SVF":
-            return svf_tensor(self.D, self.shape, self.ac, comps)
+            return svf_tensor(self.D, self.shape, self.ac, comps, dtype)
         cp_shape = tuple(leaf.real.data_shape[1:])
         s = int(leaf.spec["stride"])
         expect = tuple((n - 1) // s + 4 if s > 1 else n + 3 for n in self.shape)
         if cp_shape != expect:
             raise Violation("svffd_control_point_layout", f"data_shape {cp_shape} != {expect} for shape {self.shape} stride {s}")
-        return svffd_tensor(self.D, self.shape, s, cp_shape, comps)
+        return svffd_tensor(self.D, self.shape, s, cp_shape, comps, dtype)
 
     def build(self, model):
         S = self.S
@@ -477,23 +542,29 @@ class World:
             C = getattr(S, name)
             self.labels.add(name)
             specs = model["leaves"]
-            if self.kind == "param":
-                t = C(self.grid, groups=self.N)
+            double = self.route == "double" and self.kind != "callable"
+            if self.kind == "param" or double:
+                t = C(self.grid, groups=self.N, **({} if self.kind == "param" else {attr: False for attr, _ in members}))
+                if double:
+                    t = t.double()
                 for (attr, cls), spec in zip(members, specs):
                     leaf, eff = self.new_linear(spec, member=getattr(t, attr))
                     leaf.path = [attr]
-                    self.set_linear(leaf, eff)
+                    if double:
+                        self.fill(leaf, eff)
+                    else:
+                        self.set_linear(leaf, eff)
                     self.leaves.append(leaf)
                 return t
             kw = {}
             for (attr, cls), spec in zip(members, specs):
-                leaf = Leaf(spec, self.kind, act=False)
+                leaf = self.leaf_of(spec, self.kind, act=False)
                 eff = self.eff_values(cls, spec["val"])
                 leaf.raw = eff
                 if self.kind == "buffer":
-                    kw[attr] = self.to_tensor(eff)
+                    kw[attr] = self.to_tensor(eff, leaf.dtype)
                 else:
-                    leaf.holder = {"p": self.to_tensor(eff)}
+                    leaf.holder = {"p": self.to_tensor(eff, leaf.dtype)}
                     kw[attr] = self.source((lambda h: (lambda: h["p"]))(leaf.holder))
                 self.leaves.append(leaf)
             t = C(self.grid, groups=self.N, **kw)
@@ -514,6 +585,10 @@ class World:
                 t = GenericSpatialTransform(self.grid, params=self.source(lambda: dict(holder)), config=cfg)
             else:
                 t = GenericSpatialTransform(self.grid, params=True, config=cfg)
+            # Module.double(): always needed by a float64 SVFFD member (its B-spline kernels are module buffers)
+            double = self.pdtype == "float64" and (self.route == "double" or any(sp["cls"] == "SVFFD" for sp in model["leaves"]))
+            if double:
+                t = t.double()
             for spec in model["leaves"]:  # in order of composition
                 name = spec["name"]
                 member = t[name]
@@ -521,17 +596,23 @@ class World:
                     leaf = self.new_velocity(spec, member=member, holder=holder, key=name)
                     if self.kind == "callable":
                         holder[name] = self.velocity_tensor(leaf)
+                    elif double and leaf.dtype == "float64":
+                        with torch.no_grad():
+                            member.params.copy_(self.velocity_tensor(leaf))
                     else:
                         member.data_(self.velocity_tensor(leaf))
                 else:
                     if self.kind == "callable":
-                        leaf = Leaf(spec, "callable", act=False)
+                        leaf = self.leaf_of(spec, "callable", act=False)
                         leaf.real, leaf.holder, leaf.key = member, holder, name
                         leaf.raw = self.eff_values(spec["cls"], spec["val"])
-                        holder[name] = self.to_tensor(leaf.raw)
+                        holder[name] = self.to_tensor(leaf.raw, leaf.dtype)
                     else:
                         leaf, eff = self.new_linear(spec, kind="param", member=member)
-                        self.set_linear(leaf, eff)
+                        if double and self.route == "double" and leaf.dtype == "float64":
+                            self.fill(leaf, eff)
+                        else:
+                            self.set_linear(leaf, eff)
                 leaf.path = [name]
                 self.leaves.append(leaf)
             return t
@@ -558,6 +639,28 @@ class World:
             nrm *= n_i
         return cond, nrm
 
+    def eps_ids(self, ids, points=True) -> float:
+        """Unit roundoff of the computation: the coarsest of the parameter dtypes of the members `ids` (a composite is
+        formed in the dtype of one of its members) and, when points are mapped, of the points (homogeneous_transform
+        casts the matrix to the dtype of the points)."""
+        e = eps_of(self.xdtype) if points else 0.0
+        for i in ids:
+            e = max(e, eps_of(self.leaves[i].dtype))
+        return e
+
+    def linear_factor(self, ids) -> float:
+        """prod_i cond_i * (K + (D+1) * sum_j cond_j), j over the members whose inverse is a numerically inverted matrix
+        (HomogeneousTransform, Shearing: torch.inverse). First-order term: rounding of the independently formed
+        products M and M^-1 (K prod cond). Second-order term: the columns of an LU-based inverse X^ carry independent
+        errors of relative size gamma_n cond, n = D+1, so that the residual of the other side (X^ A - I = dX A) is bounded
+        by gamma_n cond^2 only (Higham, Accuracy and Stability of Numerical Algorithms, 14.3)."""
+        cond, _ = self.linear_numbers(ids)
+        cinv = 0.0
+        for i in ids:
+            if self.leaves[i].cls in ("HomogeneousTransform", "Shearing"):
+                cinv += self.linear_numbers([i])[0]
+        return cond * (K + (self.D + 1) * cinv)
+
     def velocity_numbers(self, leaf: Leaf):
         """(A, C, G): total amplitude in samples, total curvature, gradient bound of the velocity (per sample)."""
         s = abs(float(leaf.spec["scale"])) if leaf.spec.get("scale") is not None else 1.0
@@ -580,7 +683,8 @@ class World:
     def pair_bound(self, ids):
         """Bound on |g(f(x)) - x| and |f(g(x)) - x| per component, in cube units.
 
-        delta = 64 eps32 prod cond_i max(1,|x|)            rounding of the linear members
+        delta = eps prod cond_i (64 + (D+1) sum_inv cond_j) max(1,|x|)   rounding of the linear members (`linear_factor`),
+                eps = unit roundoff of the coarsest dtype among the parameters of the members and the points
         pure linear:      delta
         pure velocity:    unit_c (3 A C + [C/2 for non-grid points] + floor)
         mixed (one velocity member phi between linear maps L1, L2):  the inner round trip phi^-1 L^-1 L phi sees the
@@ -591,7 +695,8 @@ class World:
         points are sample positions and get the grid-point bound."""
         cond, nrm = self.linear_numbers(ids)
         xmax = max(1.0, float(self.x.abs().max()))
-        delta = K * EPS32 * cond * xmax
+        eps = self.eps_ids(ids)
+        delta = eps * self.linear_factor(ids) * xmax
         vel = [self.leaves[i] for i in ids if self.leaves[i].velocity]
         lin = [i for i in ids if not self.leaves[i].velocity]
         P = self.x.shape[1]
@@ -606,9 +711,9 @@ class World:
         b_any = b_grid + C / 2
         out = np.zeros((P, self.D))
         if not lin:
-            out[:] = b_any * units + K * EPS32
+            out[:] = b_any * units + K * eps
             if self.grid_pts:
-                out[P - self.grid_pts:] = b_grid * units + K * EPS32
+                out[P - self.grid_pts:] = b_grid * units + K * eps
             return out
         lip = math.exp(self.D * G * float(units.max() / units.min()))
         out[:] = nrm * (b_any * float(units.max()) + lip * delta) + delta
@@ -743,9 +848,9 @@ class World:
                 if how == "mul":
                     tensor.mul_(float(op["factor"]))
                 elif how == "add":
-                    tensor.add_(self.velocity_tensor(leaf, [dict(op["comp"])]))
+                    tensor.add_(self.velocity_tensor(leaf, [dict(op["comp"])], str(tensor.dtype)[6:]))
                 else:
-                    tensor.copy_(self.velocity_tensor(leaf, new))
+                    tensor.copy_(self.velocity_tensor(leaf, new, str(tensor.dtype)[6:]))
             leaf.comps = new
             return True
         cls = leaf.cls
@@ -766,9 +871,9 @@ class World:
             if how == "mul":
                 tensor.mul_(float(op["factor"]))
             elif how == "add":
-                tensor.add_(self.to_tensor(np.broadcast_to(d[None], leaf.raw.shape).copy()))
+                tensor.add_(self.to_tensor(np.broadcast_to(d[None], leaf.raw.shape).copy(), leaf.dtype))
             else:
-                tensor.copy_(self.to_tensor(new_raw))
+                tensor.copy_(self.to_tensor(new_raw, leaf.dtype))
         leaf.raw = new_raw
         return True
 
@@ -807,11 +912,16 @@ class World:
         """Replace the parameter tensor (public setter / data_, or a new tensor returned by the callable)."""
         idx = int(op["leaf"]) % len(self.leaves)
         leaf = self.leaves[idx]
+        # the new tensor may have another dtype than the replaced one (not for SVFFD, whose module dtype is fixed by its kernels)
+        dtype = op.get("dtype") if leaf.cls != "SVFFD" else None
         if leaf.velocity:
             comps = [dict(op["comp"])]
             s = abs(float(leaf.spec["scale"])) if leaf.spec.get("scale") is not None else 1.0
             if s * abs(comps[0]["amp"]) > AMP_MAX:
                 return False
+            if dtype and dtype != leaf.dtype:
+                leaf.dtype = dtype
+                self.labels.add("set:dtype_switch")
             new = self.velocity_tensor(leaf, comps)
             if leaf.kind == "callable":
                 leaf.holder[leaf.key] = new
@@ -823,6 +933,9 @@ class World:
             chk = eff / np.linalg.norm(eff, axis=-1, keepdims=True) if leaf.cls == "QuaternionRotation" else eff
             if not leaf_valid(leaf.cls, chk) or not self.cond_ok(leaf, raw_of_eff(leaf.cls, chk, leaf.act)):
                 return False
+            if dtype and dtype != leaf.dtype:
+                leaf.dtype = dtype
+                self.labels.add("set:dtype_switch")
             self.set_linear(leaf, eff, obj=self.sharing_member(op, idx))
         if leaf.kind == "buffer":
             # fixed tensors live in the buffer container, which a shallow copy does not share (SpatialTransform.__copy__):
@@ -856,10 +969,11 @@ class World:
         else:
             return False
         if how == "data":
+            dtype = (op.get("dtype") if leaf.cls != "SVFFD" else None) or leaf.dtype
             if leaf.velocity:
-                arg = self.velocity_tensor(leaf, [dict(op["comp"])])
+                arg = self.velocity_tensor(leaf, [dict(op["comp"])], dtype)
             else:
-                arg = self.to_tensor(self.eff_values(leaf.cls, self.fit_val(leaf, op["val"])))
+                arg = self.to_tensor(self.eff_values(leaf.cls, self.fit_val(leaf, op["val"])), dtype)
             c = target.data(arg)
             c(self.x)
         elif how == "unlink":
@@ -879,7 +993,7 @@ class World:
             for b in range(eff.shape[0]):
                 H = leaf_hom(leaf.cls, D, eff[b], leaf.spec.get("order"))
                 mats.append(H[:D, :] if leaf.cls == "HomogeneousTransform" else H[:D, :D])
-            c = target.matrix(self.to_tensor(np.stack(mats)))
+            c = target.matrix(self.to_tensor(np.stack(mats), op.get("dtype") or leaf.dtype))
             c(self.x)
         elif how == "grid":
             desc = dict(self.init["grid"])
@@ -902,6 +1016,56 @@ class World:
         return True
 
     # ---- oracle -------------------------------------------------------------------------------
+    def hom_matrices(self, t) -> np.ndarray:
+        """(n, D+1, D+1) float64 copies of the matrices of a linear transform: matrix() where the class offers it
+        (LinearTransform), else tensor() - documented shapes (n, D, 1) translation, (n, D, D) affine, (n, D, D+1)."""
+        D = self.D
+        T = (t.matrix() if hasattr(t, "matrix") else t.tensor()).detach().double().numpy()
+        if T.ndim != 3 or T.shape[1] != D or T.shape[2] not in (1, D, D + 1):
+            raise Violation("linear_tensor_shape", f"{type(t).__name__}: matrix representation of shape {T.shape}")
+        H = np.tile(np.eye(D + 1)[None], (T.shape[0], 1, 1))
+        if T.shape[2] == 1:
+            H[:, :D, D] = T[:, :, 0]
+        else:
+            H[:, :D, : T.shape[2]] = T
+        return H
+
+    def matrix_roundtrip(self, f, g, ids, kind, what):
+        """The matrix representations of a linear pair compose to the identity to the accuracy of the PARAMETER dtype
+        (no points involved): |Mg Mf - I|, |Mf Mg - I| <= eps_p * linear_factor; the products are formed in float64 numpy."""
+        if any(self.leaves[i].velocity for i in ids):
+            return
+        Mf, Mg = self.hom_matrices(f), self.hom_matrices(g)
+        if not (np.all(np.isfinite(Mf)) and np.all(np.isfinite(Mg))):
+            raise Violation(kind + ":nonfinite", f"{what}: non-finite matrix")
+        bound = self.eps_ids(ids, points=False) * self.linear_factor(ids)
+        I = np.eye(self.D + 1)[None]
+        err = max(float(np.abs(Mg @ Mf - I).max()), float(np.abs(Mf @ Mg - I).max()))
+        if err > bound:
+            raise Violation(kind, f"{what}: |M_inv M - I| = {err:.4g} > bound {bound:.3g} (parameter dtypes "
+                                  f"{sorted({self.leaves[i].dtype for i in ids})})")
+        self.worst = max(self.worst, err / bound)
+
+    def check_linear_extras(self, p, f, g, outs, ctx):
+        """Linear pairs only: dtype of the results (homogeneous_transform: 'the data type of the resulting tensor is
+        set to points.dtype'), and the matrix level round trip of the pair and of each of its members."""
+        ids = p["ids"]
+        if any(self.leaves[i].velocity for i in ids):
+            return
+        for name, out in outs:
+            if out.dtype != self.x.dtype:
+                raise Violation("linear_result_dtype_differs_from_points", f"{name} has dtype {out.dtype} for points of dtype "
+                                                                          f"{self.x.dtype} ({p['what']})")
+        self.matrix_roundtrip(f, g, ids, "matrix_of_inverse_times_matrix:" + ctx, f"pair [{p['what']}]")
+        if len(ids) > 1:
+            for i in ids:
+                path = p["paths"].get(i)
+                if not path:
+                    continue
+                self.matrix_roundtrip(self.member(f, path), self.member(g, path), [i], "member_matrix_of_inverse_times_matrix:" + ctx,
+                                      f"member {'.'.join(path)} ({self.leaves[i].cls}, {self.leaves[i].dtype}) of pair [{p['what']}]")
+        self.flags["matrix"] = True
+
     def check(self):
         x = self.x
         same, self.expect_same = self.expect_same, None
@@ -919,7 +1083,7 @@ class World:
             if same is not None and "last" in p:
                 # same parameters, same code path as in the previous check: identical values (4 eps32 for safety)
                 for new, old, who in ((y, p["last"][0], "receiver_or_partner_forward"), (z, p["last"][1], "receiver_or_partner_inverse")):
-                    b = np.full((x.shape[1], self.D), 4 * EPS32 * max(1.0, float(old.abs().max())))
+                    b = np.full((x.shape[1], self.D), 4 * self.eps_ids(p["ids"]) * max(1.0, float(old.abs().max())))
                     self.compare(new, old, b, f"functional_setter_modified_pair:{same}:" + ("linked" if p["linked"] else "unlinked") + ":" + self.kind,
                                  f"{who} of pair [{p['what']}] changed by the functional setter {same}(...) whose result was dropped")
                 self.flags["func"] = True
@@ -928,6 +1092,7 @@ class World:
             self.compare(xr, x, bound, "inv_of_fwd:" + ctx, f"g(f(x)) != x for g = {p['what']}")
             xr2 = f(z)
             self.compare(xr2, x, bound, "fwd_of_inv:" + ctx, f"f(g(x)) != x for g = {p['what']}")
+            self.check_linear_extras(p, f, g, (("f(x)", y), ("g(x)", z), ("g(f(x))", xr), ("f(g(x))", xr2)), ctx)
             if self.version > p["born"]:
                 self.flags["changed"] = True
             if p.get("replaced") and not p["linked"] and self.kind == "param":
@@ -941,7 +1106,7 @@ class World:
                 m(x)
             y = f(x)
             mag = max(1.0, float(y.detach().abs().max()))
-            bound = np.full((x.shape[1], self.D), K * EPS32 * cond * mag)
+            bound = np.full((x.shape[1], self.D), self.eps_ids(e["ids"]) * self.linear_factor(e["ids"]) * mag)
             y2 = gg(x)
             self.compare(y2, y, bound, "inverse_of_inverse_differs:" + ("linked" if e["linked"] else "unlinked") + ":" + self.kind,
                          f"inverse(inverse(t))(x) != t(x) for {e['what']}")
@@ -960,6 +1125,18 @@ def run_history(case):
     nt = nonid and w.flags["performed"] >= 1 and bool(w.pairs or w.equivs) and (
         w.flags["changed"] or w.flags["linked"] or w.kind == "callable" or w.flags["func"])
     labels = sorted(w.labels) + [f"kind={w.kind}" + ("(module)" if w.kind == "callable" and init.get("module") else ""), f"D={w.D}", f"N={w.N}", f"ac={w.ac}", "grid=" + init["grid"].get("kind", "?")]
+    labels += [f"pdtype={w.pdtype}", f"xdtype={w.xdtype}", "route=" + w.route]
+    dts = {l.dtype for l in w.leaves}
+    if len(dts) > 1:
+        labels.append("mixed_member_dtypes")
+    if "float64" in dts and w.N > 1:
+        labels.append("float64_groups>1")
+    if all(d == "float64" for d in dts) and w.xdtype == "float64" and not any(l.velocity for l in w.leaves):
+        labels.append("all_float64_linear[" + init["model"]["type"] + "]")
+    if any(l.cls == "HomogeneousTransform" and len(l.spec["val"][0]) > w.D * w.D + (1 if w.D == 2 else 3) + w.D for l in w.leaves):
+        labels.append("hom_stretch")
+    if w.flags["matrix"]:
+        labels.append("matrix_level_round_trip")
     if w.flags["changed"]:
         labels.append("checked_after_change")
     if w.flags["replaced_unlinked"]:
@@ -992,9 +1169,10 @@ def vals(cls: str, D: int):
         return st.lists(gen.qfloat(-0.7, 0.7, 0.01), min_size=nvals(cls, D), max_size=nvals(cls, D))
     if cls == "HomogeneousTransform":
         nrot = 1 if D == 2 else 3
+        stretch = st.one_of(st.just([]), st.lists(gen.logfloat(0.1, 4.0), min_size=D, max_size=D))  # cond up to a few hundred
         return st.tuples(st.lists(gen.qfloat(-0.5, 0.5, 0.01), min_size=D * D, max_size=D * D),
                          st.lists(gen.qfloat(-3.0, 3.0, 0.01), min_size=nrot, max_size=nrot),
-                         st.lists(gen.qfloat(-0.5, 0.5, 0.01), min_size=D, max_size=D)).map(lambda t: t[0] + t[1] + t[2])
+                         st.lists(gen.qfloat(-0.5, 0.5, 0.01), min_size=D, max_size=D), stretch).map(lambda t: t[0] + t[1] + t[2] + t[3])
     raise ValueError(cls)
 
 
@@ -1046,10 +1224,17 @@ def edit_op(draw, i, spec, D, damped=False):
     return {"op": "edit", "leaf": i, "how": "copy", "val": [damp(cls, v, D) if damped else v]}
 
 
+OTHER_DTYPE = [None, None, None, None, None, None, "float32", "float64"]  # optional dtype of a tensor handed to a setter / of a composed member
+
+
 def set_op(draw, i, spec, D, damped=False):
     """Replacement through the public setter, called on the forward member or ("on" = "g") on the member of an unlinked
-    inverse that shares its parameter container (optimisable parameters only, else the forward member is used)."""
+    inverse that shares its parameter container (optimisable parameters only, else the forward member is used); the new
+    tensor optionally has another dtype than the one it replaces ("dtype")."""
     on = {"on": draw(st.sampled_from(["f", "f", "g"])), "k": draw(st.integers(0, 3))}
+    dt = draw(st.sampled_from(OTHER_DTYPE))
+    if dt is not None:
+        on["dtype"] = dt
     if spec["cls"] in VELOCITY:
         return {"op": "set", "leaf": i, "comp": draw(comp_spec(D)), **on}
     v = draw(vals(spec["cls"], D))
@@ -1068,6 +1253,9 @@ def func_op(draw, i, spec, D, damped=False):
         op["whole"] = draw(st.booleans())
         op["ac_toggle"] = draw(st.booleans())
     elif op["how"] in ("data", "matrix"):
+        dt = draw(st.sampled_from(OTHER_DTYPE))
+        if dt is not None:
+            op["dtype"] = dt
         if cls in VELOCITY:
             op["comp"] = draw(comp_spec(D, 0.05, 0.8))
         else:
@@ -1105,6 +1293,9 @@ def draw_steps(draw, specs, D, N, max_ops, damped=False):
             spec = draw(linear_spec(D, N))
             if damped:
                 spec["val"] = [damp(spec["cls"], v, D) for v in spec["val"]]
+            dt = draw(st.sampled_from(OTHER_DTYPE))
+            if dt is not None:
+                spec["dtype"] = dt
             specs.append(spec)
             composed += 1
             steps.append({"op": "compose", "leaf": spec, "where": draw(st.sampled_from(["after", "before"]))})
@@ -1153,7 +1344,26 @@ def linear_histories(draw):
             "pts": draw(gen.point_lists(D, -1.0, 1.0, 1, 4))}
     if kind == "callable":
         init["module"] = draw(st.booleans())
+    draw_dtypes(draw, init, model, kind)
     return {"init": init, "steps": draw_steps(draw, model["leaves"], D, N, 8)}
+
+
+def draw_dtypes(draw, init, model, kind, velocity=False):
+    """dtype of the parameters / of the points (the other one in 1 of 4 cases) / optionally another dtype for one member of
+    a composite / route by which float64 parameters come about: handed over as float64 tensors (constructor, public
+    setters, data_, callable) or created with the default dtype and converted with Module.double()."""
+    init["dtype"] = dt = draw(gen.dtypes())
+    other = "float32" if dt == "float64" else "float64"
+    init["xdtype"] = draw(st.sampled_from([dt, dt, dt, other]))
+    leaves = model["leaves"]
+    mixed = False
+    if len(leaves) > 1 and draw(st.integers(0, 4)) == 0:
+        cands = [l for l in leaves if l["cls"] != "SVFFD"]
+        if cands:
+            draw(st.sampled_from(cands))["dtype"] = other
+            mixed = True
+    if dt == "float64" and not mixed and kind != "callable" and draw(st.integers(0, 2)) == 0:
+        init["route"] = "double"
 
 
 @st.composite
@@ -1205,6 +1415,7 @@ def velocity_histories(draw):
             "gidx": draw(st.lists(st.lists(gen.qfloat(0.0, 1.0, 0.01), min_size=D, max_size=D), min_size=P, max_size=P))}
     if kind == "callable":
         init["module"] = draw(st.booleans())
+    draw_dtypes(draw, init, model, kind, velocity=True)
     return {"init": init, "steps": draw_steps(draw, model["leaves"], D, 1, 6, damped=True)}
 
 
@@ -1221,8 +1432,10 @@ def damp(cls, val, D):
         out = list(val)
         for k in range(D * D, D * D + nrot):
             out[k] = round(out[k] * 0.1, 4)
-        for k in range(D * D + nrot, len(out)):
+        for k in range(D * D + nrot, D * D + nrot + D):
             out[k] = round(out[k] * 0.2, 4)
+        for k in range(D * D + nrot + D, len(out)):  # optional stretch factors
+            out[k] = round(1.0 + (out[k] - 1.0) * 0.2, 4) if out[k] >= 1 else round(1.0 / (1.0 + (1.0 / out[k] - 1.0) * 0.2), 4)
         for k in range(D * D):
             out[k] = round(out[k] * 0.4, 4)
         return out
@@ -1311,6 +1524,15 @@ def enum_linear(tier):
                             spec["order"] = "ZXZ"
                 init = {"grid": dict(FIXED_GRID[D]), "N": 1, "kind": kind, "model": model, "grad": True, "pts": pts}
                 yield {"init": init, "steps": fixed_steps(model["leaves"], D)}
+                # the same history in double precision (parameters and points); fixed tensors of the 2-D cases come
+                # about through Module.double(), all others are handed over as float64 tensors
+                init64 = dict(init, dtype="float64", xdtype="float64", N=2 if D == 2 and kind == "param" else 1)
+                if init64["N"] == 2:
+                    init64["model"] = dict(model, leaves=[dict(l, val=[l["val"][0], [round(v * 0.9, 4) for v in l["val"][0]]])
+                                                          for l in model["leaves"]])
+                if kind == "buffer" and D == 2:
+                    init64["route"] = "double"
+                yield {"init": init64, "steps": fixed_steps(model["leaves"], D)}
 
 
 def enum_velocity(tier):
@@ -1344,6 +1566,8 @@ def enum_velocity(tier):
                         {"op": "inverse", "link": False, "ub": True},
                     ]
                     yield {"init": init, "steps": steps}
+                    if D == 2 or tier == "thorough":  # the same history in double precision
+                        yield {"init": dict(init, dtype="float64", xdtype="float64"), "steps": steps}
 
 
 # ---------------------------------------------------------------------------------------
@@ -1403,7 +1627,8 @@ def run_no_inverse(case):
 
 FACETS = [
     Facet("linear_histories", run_history, strategy=linear_histories,
-          rule="elementary / named / Sequential / Generic linear models, parameters as Parameter|buffer|callable, N in {1,2}, "
+          rule="elementary / named / Sequential / Generic linear models, parameters as Parameter|buffer|callable, float32|float64 "
+               "(points in the same or the other dtype, optionally one member in the other dtype, Module.double() route), N in {1,2}, "
                "oriented grids; 2-8 operations of inverse/inv/edit/set (on forward or through an unlinked inverse)/func (functional "
                "setter on either side of a pair)/nest/compose; non-trivial = non-identity parameters and (a pair was checked after "
                "a parameter change made after its creation, or link=True, or callable parameters, or a pair was compared across a "
